@@ -269,7 +269,8 @@ class TrapDelivery(WireUnit):
             return Opaque("coroutine")
         rt.hooks["puresnmp.transport:listen"] = listen
         loop_cls = PyClass("loop(contract-slot)", [], kind="builtin")
-        loop_cls.native_attrs["run_until_complete"] = Builtin("run_until_complete", lambda i, a, k: None)
+        # loop.run_until_complete(coro) runs the coroutine object to completion
+        loop_cls.native_attrs["run_until_complete"] = Builtin("run_until_complete", lambda i, a, k: i.rt.await_value(i, a[-1]))
         rt.native_modules["asyncio"]["ensure_future"] = Builtin("ensure_future", lambda i, a, k: scheduled.append(a[0]))
         rt.module_cache.pop("asyncio", None)
         rt.call_hooks["Opaque"] = self.x.h_opaque_call
